@@ -264,7 +264,9 @@ def run_shard(desc, tier, seed):
                         pen = segs[-1].end
                     check_path(segs, {'what': 'equal', 'k': k, 'd': core.jz(d)}, acc)
         return acc
-    for w in words(tp['n']):
+    # (words of the full length on plain paths; one segment shorter on paths with a history: 14 histories x 8^5 words
+    #  would cost an hour for no new joint patterns)
+    for w in words(tp['n'] if not desc.get('pprov') else min(tp['n'], 4)):
         if w[0] != desc['first']:
             continue
         if (w[1] if len(w) > 1 else -1) != desc['second']:
